@@ -63,11 +63,17 @@ def type_infer(t, *, forbid_internal=True):
                     new_reach.update(reach[int(T.name[2:])])
 
         # Update uf and reach, check for cycles in reach.
-        for k, v in uf.items():
-            if uf[k] == T1:
-                if k in new_reach:
-                    raise TypeInferenceException("Infinite loop")
-                uf[k] = T2
+        merged = [k for k in uf if uf[k] == T1]
+        for k in merged:
+            if k in new_reach:
+                raise TypeInferenceException("Infinite loop")
+            uf[k] = T2
+            reach[k].update(new_reach)
+
+        # Keep reach transitively closed: whatever reaches a merged variable
+        # now also reaches everything reachable from T2.
+        for k in reach:
+            if any(m in reach[k] for m in merged):
                 reach[k].update(new_reach)
 
     def unify(T1, T2):
